@@ -241,3 +241,60 @@ example : (renameSheet true ⟨id, id⟩
       (fun b' => b'.names.map fun d => (Tree.refs d.formula)) = some [[(.range, some "Otra")]] := by decide
 
 end IronCalc.Book
+
+namespace IronCalc.Book
+open IronCalc.Formula
+
+/-! ### F32d: `update_defined_name` lets a rename capture (the new spelling exists in another scope) -/
+
+/-- the full statement about re-resolution after a rename of a name: every identifier of every
+    formula resolves, after the stored list is renamed and the text parsed again, to the scope it
+    resolved to before (so it denotes the same definition) — for every rename the code ACCEPTS, i.e.
+    whenever the new spelling is unused *in the scope of the renamed name* -/
+def C32_rename_reparse_full : Prop :=
+  ∀ (F : Fold) (dns : List (String × Option Nat)) (old : String) (scope : Option Nat) (new : String) (c : Nat) (n : String),
+    (¬ ∃ d ∈ dns, F.low d.1 = F.low new ∧ d.2 = scope) →
+    resolveIdent F (renameDefs F dns old scope new) (some c)
+        (renameNameIdent F.low old scope new (resolveIdent F dns (some c) n) n).2
+      = resolveIdent F dns (some c) n
+
+/-- global `total`, sheet-local `rate` on sheet 0; renaming the global `total` to `rate` is accepted,
+    and `total` used on sheet 0 is rewritten to `rate`, which parses as the LOCAL `rate` -/
+theorem C32_rename_reparse_full_false : ¬ C32_rename_reparse_full := by
+  intro h
+  have := h ⟨id, id⟩ [("total", none), ("rate", some 0)] "total" none "rate" 0 "total" (by decide)
+  revert this
+  decide
+
+/-! ### F32c: the formula parser finds sheets case-sensitively, the name machinery ignoring case -/
+
+/-- models base/src/utils.rs::ParsedReference::parse_reference_formula's sheet lookup
+    (`Model::get_sheet_index_by_name`, ignoring case): how `parse_defined_names` resolves a name
+    whose formula is a plain reference -/
+def nameTargetUp (F : Fold) (names : List String) (f : SNode) : Option Nat :=
+  match f with
+  | .ref _ (some n) _ => sheetIndexUp F names n
+  | _ => none
+
+/-- the full statement: a reference-valued name that resolved before a rename of the sheet it refers
+    to still resolves afterwards -/
+def C32_rename_name_target_full : Prop :=
+  ∀ (F : Fold) (b b' : Book) (i : Nat) (new : String), b.UniqueNames F → renameSheet true F b i new = .ok b' →
+    ∀ (k : Nat) (d d' : DefName), b.names[k]? = some d → b'.names[k]? = some d' →
+      (nameTargetUp F b.sheetNames d.formula).isSome → (nameTargetUp F b'.sheetNames d'.formula).isSome
+
+/-- a folding that identifies exactly `data` and `Data` (kernel-evaluable stand-in for `to_uppercase`) -/
+def foldData : Fold := ⟨fun s => if s = "data" then "Data" else s, fun s => if s = "Data" then "data" else s⟩
+
+theorem C32_rename_name_target_full_false : ¬ C32_rename_name_target_full := by
+  intro h
+  have := h foldData
+    { sheets := [ { name := "Data", id := 1, formulas := [] }, { name := "S2", id := 2, formulas := [] } ],
+      names := [ { name := "total", scope := none, formula := .ref .range (some "data") "$A$1:$B$2" } ] }
+    { sheets := [ { name := "zz", id := 1, formulas := [] }, { name := "S2", id := 2, formulas := [] } ],
+      names := [ { name := "total", scope := none, formula := .ref .range (some "data") "$A$1:$B$2" } ] }
+    0 "zz" (by decide) rfl 0 _ _ rfl rfl (by decide)
+  revert this
+  decide
+
+end IronCalc.Book
